@@ -172,10 +172,12 @@ Lemma counts_somes (pk : list (list value)) : map (fun o => zlen (unopt o)) (map
 Proof. rewrite map_map. reflexivity. Qed.
 
 Lemma sg_present_IAt f str sz t ls i tail :
+  has_array tail = false ->
   sg (S f) str sz t ls (IAt i :: tail) None =
   do r <- sg (S f) str sz t (map Some (present ls)) (IAt i :: tail) None; Ok (fst r, reinsert ls (snd r)).
 Proof.
-  rewrite !sg_IAt, present_somes. destruct (szchk sz i) as [[]|e]; cbn [bind]; [|reflexivity].
+  intros Hna. rewrite !sg_IAt by (rewrite Hna; apply andb_false_r).
+  rewrite present_somes. destruct (szchk sz i) as [[]|e]; cbn [bind]; [|reflexivity].
   destruct (mapM _ (present ls)) as [xs|e]; cbn [bind present_adv]; [|reflexivity].
   destruct (se_ f t xs tail None) as [[t' ws]|e]; cbn [bind fst snd]; [|reflexivity].
   rewrite reinsert_present. reflexivity.
